@@ -80,12 +80,35 @@ impl Rng {
     pub fn uuid(&mut self) -> Vec<u8> {
         let c16: Vec<&Vec<u8>> = consts().iter().filter(|c| c.len() == 16).collect();
         if !c16.is_empty() && self.chance(1, 6) { return c16[self.below(c16.len() as u64) as usize].clone(); }
-        match self.below(8) {
+        match self.below(10) {
             0 | 1 => vec![0u8; 16],
             2 => vec![0xFFu8; 16],
             3 | 4 => self.cbytes(16),
+            5 | 6 | 7 => {
+                // shaped as RFC 4122 says: version 1..5 in the high nibble of byte 6, variant 10 in byte 8
+                let mut u = self.bytes(16);
+                let v = 1 + self.below(5) as u8;
+                u[6] = (v << 4) | (u[6] & 0x0F);
+                u[8] = 0x80 | (u[8] & 0x3F);
+                u
+            }
             _ => self.bytes(16),
         }
+    }
+    /// a UUID related to `u` the way two real UUIDs can be: the same node (last six bytes) with other time fields, the
+    /// same time fields with another node, one byte changed, the same bytes reversed, or `u` itself
+    pub fn related_uuid(&mut self, u: &[u8]) -> Vec<u8> {
+        if u.len() != 16 { return self.uuid(); }
+        let mut v = u.to_vec();
+        match self.below(6) {
+            0 => { let k = 1 + self.below(4) as usize; for i in 0..k { v[i] = v[i].wrapping_add(1 + self.below(255) as u8); } }
+            1 => { for i in 0..6 { v[i] = self.byte(); } v[7] = self.byte(); v[9] = self.byte(); }
+            2 => { for i in 10..16 { v[i] = self.byte(); } }
+            3 => { let i = self.below(16) as usize; v[i] ^= 1 << self.below(8); }
+            4 => v.reverse(),
+            _ => {}
+        }
+        v
     }
     /// n random bytes that, one time in ten, begin with a constant from the source
     pub fn body(&mut self, n: usize) -> Vec<u8> {
